@@ -7,19 +7,22 @@ TARGETS = ['pytezos.rpc.node.RpcNode.request', 'pytezos.rpc.node._is_transient_r
 STUBS = ['json.dumps / pformat inside log lines -> constant (log formatting is not the subject)',
          'requests.request -> scripted fake response (class chosen by solver, status code symbolic inside the class)',
          'pytezos.rpc.node.sleep -> records the delay']
-BOUNDS = 'response sequences of length <= 7 over 12 response classes (incl. two-error bodies); status code any integer inside the class range'
-OUTSIDE = ['response bodies outside the 12 classes (e.g. JSON bodies that are not lists)', 'HTTP transport, timeouts raised by requests']
+BOUNDS = 'response sequences of length <= 7 over 14 response classes (incl. two-error bodies and bodies labelled JSON that do not parse); status code any integer inside the class range'
+OUTSIDE = ['response bodies outside the 14 classes (e.g. JSON bodies that are not lists)', 'HTTP transport, timeouts raised by requests']
 ASSUMPTIONS = ['transient = 5xx whose JSON errors are kind=temporary and not proto.*, or 5xx whose text mentions prevalidator.ml (as the property states)']
 
 # class -> (lo, hi, transient, kind)
-OK, C401, C404, C4XX, T_JSON, P_JSON, PROTO_T, T_TEXT, NONJSON, TEMP_THEN_PROTO, PROTO_THEN_TEMP, PERM_THEN_TEMP = range(12)
-NCLS = 12
+OK, C401, C404, C4XX, T_JSON, P_JSON, PROTO_T, T_TEXT, NONJSON, TEMP_THEN_PROTO, PROTO_THEN_TEMP, PERM_THEN_TEMP, BADJSON, BADJSON_T = range(14)
+NCLS = 14
 CLASS_NAMES = ['200', '401', '404', '4xx', '5xx-json-temporary', '5xx-json-permanent', '5xx-json-proto-temporary',
                '5xx-prevalidator-text', '5xx-non-json', '5xx-json-[temporary,proto]', '5xx-json-[proto-temporary,temporary]',
-               '5xx-json-[permanent,temporary]']
-TRANSIENT = {T_JSON, T_TEXT, PERM_THEN_TEMP}
+               '5xx-json-[permanent,temporary]', '5xx-labelled-json-invalid-body', '5xx-labelled-json-invalid-body-prevalidator-text']
+TRANSIENT = {T_JSON, T_TEXT, PERM_THEN_TEMP, BADJSON_T}
 JSON_CLASSES = (OK, C4XX, T_JSON, P_JSON, PROTO_T, TEMP_THEN_PROTO, PROTO_THEN_TEMP, PERM_THEN_TEMP)
 MAXLEN = 7
+
+
+import json as _REAL_JSON
 
 
 class _Resp:
@@ -27,7 +30,7 @@ class _Resp:
         self.status_code = status
         self.seq = seq
         self.cls = cls
-        if cls in JSON_CLASSES:
+        if cls in JSON_CLASSES or cls in (BADJSON, BADJSON_T):
             self.headers = {'content-type': 'application/json'}
         else:
             self.headers = {'content-type': 'text/plain'}
@@ -52,16 +55,20 @@ class _Resp:
                           {'id': 'node.prevalidation.busy', 'kind': 'temporary', 'seq': seq}]
         else:
             self._json = None
-        if cls == T_TEXT:
+        if cls in (T_TEXT, BADJSON_T):
             self.text = f'Assert_failure src/lib_shell/prevalidator.ml:1918 seq={seq}'
         elif self._json is not None:
-            self.text = f'<json body seq={seq}>'
+            self.text = _REAL_JSON.dumps(self._json)      # the body the JSON was parsed from
+        elif cls == BADJSON:
+            self.text = f'[{{"id": "node.truncated", "kind": "perm seq={seq}'
         else:
             self.text = f'bad gateway seq={seq}'
 
     def json(self):
         if self._json is None:
-            raise ValueError('no json')
+            from simplejson import JSONDecodeError     # what requests raises in this environment
+
+            raise JSONDecodeError('Expecting value', self.text, 0)
         return self._json
 
 
@@ -109,7 +116,9 @@ def drive(classes, statuses):
                 elif a.startswith('Not found'):
                     outcome = ('404', None)
                 else:
-                    outcome = ('err', int(a.rsplit('seq=', 1)[1]) if 'seq=' in a else -1)
+                    outcome = ('err', int(a.rsplit('seq=', 1)[1].split()[0].rstrip('"}]')) if 'seq=' in a else -1)
+        except Exception as e:  # noqa: anything else escaping request() is not what the property allows
+            outcome = ('exception', type(e).__name__)
     return len(sent), delays, outcome
 
 
@@ -184,6 +193,42 @@ def sym(P, c0: int, c1: int, c2: int, c3: int, c4: int, c5: int, c6: int,
     return ok
 
 
+def sym_bvx(P, ex):
+    """The same obligation on the proxy executor (the statuses are mathematical-integer terms, the classes solver-chosen)."""
+    from harness import mbv
+
+    prefix = list(P['prefix'])
+    classes, statuses = [], []
+    live = True
+    for i in range(MAXLEN):
+        if live:
+            c = prefix[i] if i < len(prefix) else mbv._choose(ex, f'c{i}', 0, NCLS - 1)
+            if i < len(prefix):
+                ex.assume(ex.bv(f'c{i}') == c)      # recorded for the replay
+            s_ = ex.int(f's{i}')
+            if c == OK:
+                ex.assume(s_ == 200)
+            elif c == C401:
+                ex.assume(s_ == 401)
+            elif c == C404:
+                ex.assume(s_ == 404)
+            elif c == C4XX:
+                ex.assume((s_ >= 400) & (s_ <= 499) & (s_ != 401) & (s_ != 404))
+            else:
+                ex.assume((s_ >= 500) & (s_ <= 599))
+            classes.append(c)
+            statuses.append(s_)
+            if not (c in TRANSIENT and i < 5):
+                live = False
+        else:
+            classes.append(OK)
+            statuses.append(200)
+            ex.assume(ex.bv(f'c{i}') == OK)
+            ex.assume(ex.int(f's{i}') == 200)
+    ok, obs, exp = check(classes, statuses)
+    ex.check(bool(ok), f'requests, delays and outcome follow the retry rule (observed {obs}, expected {exp})')
+
+
 def concrete(P, w):
     classes = [int(c) for c in _classes(P, [w[f'c{i}'] for i in range(MAXLEN)])]
     statuses = [int(w[f's{i}']) for i in range(MAXLEN)]
@@ -207,9 +252,9 @@ def obligations(tier):
     prefixes += [[a, b] for a in tr for b in nt]
     prefixes += [[a, b, c] for a in tr for b in tr for c in range(NCLS)]
     for p in prefixes:
-        obs.append(Ob(name='retry/first=' + '+'.join(CLASS_NAMES[c] for c in p), engine='xh', sym=sym, concrete=concrete,
-                      P={'prefix': p}, timeout=60 if tier == 'quick' else 240,
-                      bounds='first responses fixed to the named classes, the remaining (up to 7 in total) symbolic over 12 classes; '
+        obs.append(Ob(name='retry/first=' + '+'.join(CLASS_NAMES[c] for c in p), engine='bvx', sym=sym_bvx, concrete=concrete,
+                      P={'prefix': p}, timeout=300 if tier == 'quick' else 900,
+                      bounds='first responses fixed to the named classes, the remaining (up to 7 in total) symbolic over 14 classes; '
                              'status codes symbolic inside each class',
                       targets=TARGETS, stubs=STUBS))
     return obs
